@@ -24,6 +24,14 @@ type BranchSpec struct {
 	Table  [][]int `json:"table"`  // outcome of the k-th evaluation = Table[k mod len]; subset of Ends (singleton unless Multi)
 }
 
+// InputSpec is one AddInput / AddDependency / AddInputWithOptions(WithNoDirectDependency) call of a
+// Workflow node (Mode "workflow" only).
+type InputSpec struct {
+	From int    `json:"from"`
+	Kind string `json:"kind"` // in: control + data ; dep: control only ; data: data only (no direct dependency)
+	Map  string `json:"map"`  // whole: the entire output ; to: ToField(<from name>) ; (ignored for dep)
+}
+
 // NodeSpec is one node.
 //
 //	prod  StreamableLambda: the framework concatenates the input; the node starts a goroutine that sends Items chunks into a Pipe(Cap)
@@ -42,11 +50,14 @@ type NodeSpec struct {
 	OutKey   string       `json:"out_key,omitempty"`
 	Succ     []int        `json:"succ"`
 	Branches []BranchSpec `json:"branches,omitempty"`
+	Inputs   []InputSpec  `json:"inputs,omitempty"` // workflow only (then Succ is unused)
+	Fail     bool         `json:"fail,omitempty"`   // the node returns an error instead of running (abort exits; outside the property)
 }
 
 // Case is one streaming run.
 type Case struct {
-	Mode          string       `json:"mode"` // dag (AllPredecessor) | pregel (AnyPredecessor)
+	Mode          string       `json:"mode"`                 // dag (AllPredecessor) | pregel (AnyPredecessor) | workflow (Workflow: all-predecessor, eager)
+	EndInputs     []InputSpec  `json:"end_inputs,omitempty"` // workflow only
 	Nodes         []NodeSpec   `json:"nodes"`
 	StartSucc     []int        `json:"start_succ"`
 	StartBranches []BranchSpec `json:"start_branches,omitempty"`
@@ -209,14 +220,20 @@ func genCase(r *lib.Rng, tier string) *Case {
 	if tier == "thorough" {
 		maxN = 9
 	}
-	if r.Chance(3, 5) {
+	switch x := r.Intn(10); {
+	case x < 4:
 		c.Mode = "dag"
 		g.genDag(c, r.Range(1, maxN))
-	} else {
+	case x < 7:
 		c.Mode = "pregel"
 		g.genPregel(c, maxN)
+	default:
+		c.Mode = "workflow"
+		g.genWorkflow(c, r.Range(1, maxN))
 	}
-	g.keys(c)
+	if c.Mode != "workflow" {
+		g.keys(c)
+	}
 	if r.Chance(1, 2) {
 		c.Input = "stream"
 		c.InCap = r.Intn(3)
@@ -408,4 +425,212 @@ func (g *genCtx) keys(c *Case) {
 			c.Nodes[i].InKey = k
 		}
 	}
+}
+
+// genWorkflow: nodes in topological order. Every node gets its control from a parent (an input
+// with or without data, or a branch of the parent — a Workflow branch carries no data) and its
+// data from inputs with / without direct dependency; data-only inputs come from any earlier node
+// (the cross-branch shape of the Workflow documentation). Every node without a successor feeds END.
+func (g *genCtx) genWorkflow(c *Case, k int) {
+	r := g.r
+	c.Nodes = make([]NodeSpec, k)
+	c.StartSucc = []int{}
+	children := map[int][]int{}
+	for j := 0; j < k; j++ {
+		g.nodeKind(&c.Nodes[j])
+		c.Nodes[j].Succ = []int{}
+		p := r.Range(-1, j-1)
+		children[p] = append(children[p], j)
+	}
+	has := func(ins []InputSpec, from int) bool {
+		for _, in := range ins {
+			if in.From == from {
+				return true
+			}
+		}
+		return false
+	}
+	inputsOf := func(t int) *[]InputSpec {
+		if t == END {
+			return &c.EndInputs
+		}
+		return &c.Nodes[t].Inputs
+	}
+	add := func(t, from int, kind string) {
+		ins := inputsOf(t)
+		if !has(*ins, from) {
+			*ins = append(*ins, InputSpec{From: from, Kind: kind})
+		}
+	}
+	branchEnd := map[int]bool{}
+	for p := -1; p < k; p++ {
+		ch := children[p]
+		cand := append([]int(nil), ch...)
+		if r.Chance(1, 2) {
+			cand = append(cand, END)
+		}
+		if len(cand) >= 2 && r.Chance(1, 2) {
+			pm := r.Perm(len(cand))
+			n := r.Range(2, len(cand))
+			var ends []int
+			for i := 0; i < n; i++ {
+				ends = append(ends, cand[pm[i]])
+			}
+			sort.Ints(ends)
+			b := g.branch(ends)
+			if p == START {
+				c.StartBranches = append(c.StartBranches, b)
+			} else {
+				c.Nodes[p].Branches = append(c.Nodes[p].Branches, b)
+			}
+			for _, e := range ends {
+				branchEnd[e] = true
+				// the data of a branch end: from the branching node without direct dependency, from an
+				// earlier node, both, or nothing at all (the node then runs on an empty stream)
+				switch r.Intn(5) {
+				case 0:
+				case 1:
+					add(e, p, "in") // also a direct successor of the branching node
+				default:
+					add(e, p, "data")
+				}
+			}
+			if r.Chance(1, 6) && len(ends) >= 2 {
+				b2 := g.branch(append([]int(nil), ends[:2]...))
+				if p == START {
+					c.StartBranches = append(c.StartBranches, b2)
+				} else {
+					c.Nodes[p].Branches = append(c.Nodes[p].Branches, b2)
+				}
+			}
+		}
+		for _, j := range ch {
+			if !branchEnd[j] || r.Chance(1, 8) {
+				if r.Chance(1, 5) {
+					add(j, p, "dep")
+				} else {
+					add(j, p, "in")
+				}
+			}
+		}
+	}
+	// extra inputs from earlier nodes
+	for j := 0; j < k; j++ {
+		for n := r.Intn(3); n > 0; n-- {
+			q := r.Range(-1, j-1)
+			switch r.Intn(4) {
+			case 0:
+				add(j, q, "dep")
+			case 1:
+				add(j, q, "in")
+			default:
+				add(j, q, "data")
+			}
+		}
+	}
+	// every node without a successor feeds END; a few more END inputs
+	// (a control successor: END waits, directly or not, for every node that runs, so that when END
+	// is reached every node ran or was skipped)
+	hasSucc := map[int]bool{}
+	for j := 0; j < k; j++ {
+		for _, in := range c.Nodes[j].Inputs {
+			if in.Kind != "data" {
+				hasSucc[in.From] = true
+			}
+		}
+		if len(c.Nodes[j].Branches) > 0 {
+			hasSucc[j] = true
+		}
+	}
+	for j := 0; j < k; j++ {
+		if !hasSucc[j] || r.Chance(1, 4) {
+			if r.Chance(1, 6) && hasSucc[j] {
+				add(END, j, "data")
+			} else {
+				add(END, j, "in")
+			}
+		}
+	}
+	if len(c.EndInputs) == 0 {
+		add(END, START, "in")
+	}
+	// START needs a direct successor ("start node not set" otherwise)
+	startDirect := false
+	for j := 0; j < k; j++ {
+		for _, in := range c.Nodes[j].Inputs {
+			if in.From == START && in.Kind != "data" {
+				startDirect = true
+			}
+		}
+	}
+	for _, in := range c.EndInputs {
+		if in.From == START && in.Kind != "data" {
+			startDirect = true
+		}
+	}
+	if !startDirect {
+		switch {
+		case k > 0 && !has(c.Nodes[0].Inputs, START):
+			add(0, START, "dep")
+		case !has(c.EndInputs, START):
+			add(END, START, "in")
+		default: // both have a data-only input from START: give the first one a direct dependency
+			for i := range c.Nodes[0].Inputs {
+				if c.Nodes[0].Inputs[i].From == START {
+					c.Nodes[0].Inputs[i].Kind = "in"
+				}
+			}
+		}
+	}
+	// mappings: the entire output when it is the only data input, otherwise one field per predecessor
+	fix := func(ins []InputSpec) {
+		nd := 0
+		for _, in := range ins {
+			if in.Kind != "dep" {
+				nd++
+			}
+		}
+		for i := range ins {
+			switch {
+			case ins[i].Kind == "dep":
+				ins[i].Map = ""
+			case nd == 1 && r.Chance(2, 3):
+				ins[i].Map = "whole"
+			default:
+				ins[i].Map = "to"
+			}
+		}
+	}
+	for j := range c.Nodes {
+		fix(c.Nodes[j].Inputs)
+	}
+	fix(c.EndInputs)
+}
+
+// calls of the compiled graph as the model wants them: for START and every node the data
+// successors (chanCall.writeTo) and the control successors (chanCall.controls).
+func (c *Case) callsOf() (writeTo, controls map[int][]int) {
+	writeTo, controls = map[int][]int{}, map[int][]int{}
+	if c.Mode != "workflow" {
+		writeTo[START], controls[START] = c.StartSucc, c.StartSucc
+		for i, n := range c.Nodes {
+			writeTo[i], controls[i] = n.Succ, n.Succ
+		}
+		return
+	}
+	addIn := func(t int, ins []InputSpec) {
+		for _, in := range ins {
+			if in.Kind == "in" || in.Kind == "data" {
+				writeTo[in.From] = append(writeTo[in.From], t)
+			}
+			if in.Kind == "in" || in.Kind == "dep" {
+				controls[in.From] = append(controls[in.From], t)
+			}
+		}
+	}
+	for i, n := range c.Nodes {
+		addIn(i, n.Inputs)
+	}
+	addIn(END, c.EndInputs)
+	return
 }
